@@ -219,13 +219,14 @@ pair1poly_pipe_init(void *arg, nni_pipe *pipe, void *pair)
 	nni_aio_init(&p->aio_get, pair1poly_pipe_get_cb, p);
 	nni_aio_init(&p->aio_put, pair1poly_pipe_put_cb, p);
 
+	// (set these first: close/stop/fini run even if we fail below)
+	p->pipe = pipe;
+	p->pair = pair;
+
 	if ((rv = nni_msgq_init(&p->send_queue, 2)) != 0) {
 		// (the core runs our close, stop and fini for a failed init)
 		return (rv);
 	}
-
-	p->pipe = pipe;
-	p->pair = pair;
 
 	return (0);
 }
